@@ -7,17 +7,54 @@ ids = [json.loads(l)['id'] for l in open(os.path.join(here, 'properties.jsonl'))
 TB = ("trusted base: reference model refchess (independent mailbox implementation of the rules, validated at setup "
       "against published perft tables), the binding layer (public API + listed hooks), rustc/std. ")
 
-CHECKS = {
- 'C01': dict(
-   text="Explicit-state exploration of the product (reference model x real owlchess): in every state of the listed universes "
-        "(all <=3-man positions; every arrangement of <=2 [thorough 3] men on every king ray; every en-passant shape x king placements x extra man; "
-        "castling and promotion families; everything within 3 [thorough 4] plies of 22 seeds; thorough: all 4-man positions) the five legal generators are compared "
-        "as multisets with the model's legal set, and validate / is_legal_unchecked / TryUnchecked / make+is_opponent_king_attacked with model legality of every pseudo-legal move. "
-        "Exhaustive within those bounds; beyond them only the small-scope argument.",
-   design_ref="DESIGN.md section 5 C01",
-   note=TB + "Positions outside the enumerated universes are not decided.",
-   technique="explicit-state enumeration, lock-step against a reference model"),
-}
+CHECKS = {}
+def add(i, text, note, tech="explicit-state enumeration of finite universes, lock-step against a reference model"):
+    CHECKS[i] = dict(text=text, design_ref=f"DESIGN.md section 5 {i}", note=TB + note, technique=tech)
+
+UNI = ("Universes (each enumerated completely, in a fixed order): M3 = all positions with <=3 men incl. every rights/en-passant variant; RAY = every arrangement of <=2 [thorough 3] men on every ray from every king square; "
+       "EP = every en-passant shape x own king anywhere x enemy king x extra man; CASTLE / PROMO = castling and promotion families; REACH(d) = every position within d plies of 22 seeds (dedup on the full position); "
+       "COUNTERS = seeds x clocks 0..151, 65533..65535 x move numbers 1, 2, 65534, 65535; thorough adds M4 = all 4-man positions (~1.1e9) and deeper REACH. ")
+
+add('C01', "Explicit-state exploration of the product (reference model x real owlchess): in every state the five legal generators are compared as multisets with the model's legal set and its capture / quiet / promotion subsets, and Move::validate, is_legal_unchecked, TryUnchecked::make / make_raw and make_move_unchecked + is_opponent_king_attacked are compared with model legality for every pseudo-legal move. " + UNI + "Exhaustive within those bounds; beyond them only the small-scope argument of DESIGN.md section 4.",
+    "Positions outside the enumerated universes are not decided.")
+add('C02', "Every safe entry point (Make::make, Make::make_raw, Board::make_move, MoveChain::push) is driven with move-like values of every kind (Move, uci::Move, Uci(str), san::Move, San(str)): level 2 = all 7,781 well-formed Move values and all 20,481 UCI strings on REACH(1/2) and 30 hand-picked positions, level 1 = all values with an occupied source on REACH(2), level 0 = the values derived from every pseudo-legal move on M3, EP, CASTLE, PROMO, COUNTERS, REACH(3), plus every SAN-alphabet string of <=3 symbols on the 30 positions. Oracle: accepted iff it denotes a model-legal move; result = model successor, identical in all fields (hook H1) to its own re-validation, mover not in check; refusal = Err, no panic, board / chain unchanged in all fields.",
+    "SAN denotation = the unique legal move agreeing with the model's descriptor reading of the text; refusal of a uniquely denoting non-canonical SAN text is not judged. Hook H1.")
+add('C03', "Every legal transition of M3, EP, CASTLE, PROMO, COUNTERS, REACH(3) [thorough: M4, REACH(4)] is applied with Board::make_move and the resulting raw position is compared field by field (64 squares, side, four rights, en-passant mark, both counters) and as FEN text with the model's apply(), counters clamped at 65535. Run in the checked build (a wrap would be an overflow panic) and again in the release build (a wrap would be a silently wrong value).",
+    "The release-configuration leg covers M3, EP(q), CASTLE(q), PROMO(q), COUNTERS and REACH(2/3).")
+add('C04', "For every state and every semilegal move (illegal ones included) and the null move: make_move_unchecked / unmake_move_unchecked, TryUnchecked (incl. its internal rollback), Make::make_raw for Move, uci::Move, Uci(str), san::Move, San(str) followed by undo, MoveChain::push + pop; snapshot of every observable (raw fields, hash, colour sets, 13 per-cell sets, combined set via H1) before = after. Plus nested make/unmake depth-first search to depth 3 [4] on ONE mutable board from every seed, compared on the way down with a freshly validated board of the model position and after every undo with the snapshot.",
+    "Hook H1. Only getters and is_opponent_king_attacked are called on temporarily invalid boards.", "explicit-state enumeration + nested apply/undo DFS with full-state snapshot oracle")
+add('C05', "coherent(b) (stored hash = RawBoard::zobrist_hash(), every stored set = rebuilt from squares) is evaluated in every state, after every legal make and after every unmake of every semilegal move and the null move; successor hash = hash of the model successor validated from scratch; hash unchanged by counter changes; all transpositions inside REACH(4) hash equally (exact position identity as key); single-feature sensitivity decided exhaustively on the key tables (every square x every pair of the 13 cell values, side, every pair of rights one right apart, no-mark + 8 files per side) on 4 base boards.",
+    "Hook H1. Collisions between positions that differ in more than one feature are not a violation and are not looked for.")
+add('C06', "All 10 x 13 x 64 x 64 tuples through Move::new against the model's geometric predicate; then in every state of the universes the three sets {m in W : is_semilegal}, semilegal::gen_all and the model's pseudo-legal moves are compared (W = all 7,781 well-formed moves, incl. wrong colour / wrong piece), semi_validate = is_semilegal, generated moves are well-formed and name the piece on their source, gen_all = capture + simple and simple = no_promote + promote as multisets, each part = the model's class, and the _into variants (Vec, ArrayVec, MoveList) produce the same sequences.",
+    "quick: RAY and EP use the reduced W-scan (occupied sources + empty-source probe set); thorough M4 likewise.")
+add('C07', "calc_outcome, calc_draw_simple, has_legal_moves, is_check against the model's tier (forced > mandatory > claimable > none) and applicable-reason set in every state of M3, EP, REACH(3) at each of the clocks 0, 99, 100, 101, 149, 150, 151, 65535, and of MATERIAL (every assignment of {empty, B, b, N, n} to 8 squares of mixed colour x 6 king placements x 6 clocks); thorough adds M4 at clocks 0 and 100 and the full EP family.",
+    "Any applicable reason of the highest applicable tier is accepted.")
+add('C08', "Board::from_fen(as_fen) = identity in all fields, as_fen = the model writer's canonical six-field record, and the model's independent reader interprets as_fen as the same position, in every state of M3, EP, CASTLE, PROMO, COUNTERS, REACH(3) [thorough M4, REACH(4)]; RawBoard round trip for every rank pattern over {empty, P, k} in each rank slot, every rank-consistent en-passant mark with / without pawn x 16 rights values, both counters over all 65,536 values; parse-format-parse stability for every accepted string of a 2.7M-string FEN field product and of all single-edit neighbours of 40 canonical records.",
+    "Independent FEN reader / writer of the reference model.")
+add('C09', "Move::san / styled (San, SanUtf8, Uci) = the model's SAN writer (minimal disambiguation among LEGAL candidates, marks from the model successor), texts distinct, from_san(text) = the move, san::Move parse(format) = identity, SAN refused for illegal moves, for every (state, legal move) of M3, RAY, EP, CASTLE, PROMO, SANAMB (3 [4] same pieces anywhere, thorough with pinners), REACH(3). Parsing soundness: every single-edit neighbour of every canonical text (REACH(2), EP), all 576 abbreviated pawn-capture texts, and every string of <=5 [6] symbols over a 28-symbol class alphabet on 30 positions: a returned move must be model-legal, agree with the model's descriptor reading (piece, destination, origin hints, promotion), and |agreeing legal moves| must be 1.",
+    "Texts the permissive descriptor reader cannot read but owlchess accepts are checked for legality only (counted).")
+add('C10', "Every semilegal move of every state: to_string = model UCI text and from_uci(text) = the move (kind included), uci::Move round trip; acceptance: all 20,480 strings + 0000 on every REACH(2) state, all strings with occupied source (+ the lowest empty square) on M3, EP, CASTLE, PROMO [thorough REACH(3)]: from_uci_semilegal / from_uci_legal / Uci(str).make succeed iff the model has a pseudo-legal / legal move with that (source, destination, promotion) and return that move; 0000 refused by all playing entry points.",
+    "Strings with an empty source square other than the probe are refused by the same early exit and are enumerated completely only on REACH(2).")
+add('C11', "Board::try_from and Board::from_fen against the model's validate() on RAW(a) every board with <=2 [3] occupied squares of all 12 kinds x 2 sides x rights / mark variants, RAW(b) the six home squares x {empty, K, R, k, r, N} x 16 rights x 2 sides, RAW(c) an en-passant mark on each of the 64 squares x neighbourhood contents, RAW(d) men counts 0..20 per side, plus every state of the standard universes: Ok iff model Ok; error reason in the model's SET of conditions that hold; result = model normal form; coherent; validating the result again is the identity in all fields.",
+    "Any member of the set of conditions that hold is accepted as the reported reason.")
+add('C12', "Every call under catch_unwind in a child process: all strings of <=6 [7] symbols over a 28-symbol SAN class alphabet and <=6 [7] over a 19-symbol UCI alphabet (incl. 2-, 3-, 4-byte characters) through the from_str parsers, <=5 [6] on 4 positions through Move::from_uci*, Uci.make, Move::from_san; Coord / Cell / Color / CastlingRights over all strings of <=3 symbols of a 30-symbol alphabet and every single char; all single-edit neighbours of the 64 square names, all 20,481 UCI strings, every canonical SAN text of 30 positions, 40 FEN records; a 2.7M-string FEN field product; move lists: all token sequences of length <=3 over per-position token classes x 6 separators x 3 paddings on 12 positions (reported position = moves applied). Oracle: no panic / abort; parse(format(v)) = v for every accepted value.",
+    "Decided up to the stated string bounds only; not for all Rust strings.", "exhaustive bounded string enumeration with fault (panic/abort) interception")
+add('C13', "Breadth-first search over chain states of 9 mini-games (key = accepted moves + stored outcome) with the real MoveChain carried along each path; alphabet: push as Move / uci::Move / Uci(str) / San(str) (legal, illegal, garbage), push_uci_list, pop, set_auto_outcome x 3 filters, clear_outcome, reset_outcome. After every operation the real chain is compared in full (current board in all fields, moves, undo records, repetition table via H3, outcome, start) with a fresh chain replaying the accepted moves, with the model chain, and - when a state is reached again by another history - with the first history's chain; plus every operation word of length <=8 [10] over a 6+2 symbol alphabet without merging; plus == on every pair of 362 chains.",
+    "Hooks H1 and H3. push on a finished chain is an asserted precondition and outside the alphabet.", "explicit-state BFS over operation sequences with differential (cross-history) and reference-model oracles")
+add('C14', "Same exploration as C13 (G1 reaches fivefold repetition at ply 16; look-alike positions that differ only in castling rights or en-passant mark; clocks at 98 / 148; K v K; lines into mate and stalemate): in every chain state calc_outcome is compared with the model's tier and applicable reasons computed from exact position identities of the whole history, the occurrence count (H3) with the model's, set_auto_outcome(filter) stores iff the outcome passes and returns what it stored; Outcome::passes / is_force / winner over the full table of 22 outcomes x 3 filters.",
+    "Hook H3. Any applicable reason of the highest applicable tier is accepted.", "explicit-state BFS over game histories against a reference model of repetition counting")
+add('C15', "Through hook H2, on the tables of the build under test: rook / bishop lookups for every square x every subset of the square's GEOMETRIC ray set (1.1M subsets in total) = model ray walk; stored pre-mask inside the geometric rays, post-mask containing them; insensitivity to every off-ray square and to the complete off-ray complement; lookup index inside the table; king / knight / pawn sets = geometric offsets; alignment predicates for all 64 x 64 pairs and strictly-between sets for all aligned pairs in both orders.",
+    "Extension to all 2^64 occupancies rests on the lookup reading the occupancy only through `occupied & mask` (read from attack.rs) plus the checked mask inclusion and the black-box insensitivity probes. Non-aligned strictly-between results are outside the contract and not judged.", "exhaustive table enumeration against a geometric model")
+add('C16', "cell_attackers = model attacker set and is_cell_attacked = non-empty for every state x 64 squares x 2 colours (own-occupied targets included), is_check / checkers = model, on M3, RAY, EP, CASTLE, PROMO, REACH(3) [thorough M4, RAY(3), REACH(4)].",
+    "")
+add('C17', "For 9,051 [more] chains (all lines of <=4 [5] plies of a knights-and-pawn game, all lines of K+R v K with either side first, all special-move lines - castling both sides, en passant, promotion, capture-promotion - from three seeds and their colour mirrors at move numbers 1 and 12): every walker word over {next, prev, start, end} of length <=6 [8] without merging returns (position before move i in all fields, move i) per a plain cursor model, pos()/len() follow, chain untouched; from_uci_list(uci()) rebuilds an equal chain; styled() for 5 number policies x 3 styles x 2 status policies x 4 stored outcomes = the model printer's text.",
+    "Model printer = standard movetext conventions. Hook H1/H3 for comparing chains in full.", "exhaustive enumeration of operation words against a cursor model + model printer")
+add('C18', "Metamorphic, implementation against itself: for every state of M3, EP, CASTLE, PROMO, REACH(3) [thorough M4] the colour-swapped vertical mirror validates, its legal moves are the mirror images (kind-preserving), is_check / has_legal_moves equal, calc_outcome equal with the winner swapped, successor of the mirrored move = mirror of the successor; for states without castling rights the same with the left-right mirror.",
+    "Only the mirroring maps and the binding layer are trusted; no reference model.", "exhaustive metamorphic enumeration")
+add('C19', "(a) every table index computation over its whole input domain (magic lookups for every square x every subset of its rays x {plain, off-ray complement} with the landing index reported by H2; all direct tables); (b) a sweep of every generator and query (10 generators, cell_attackers x 128, has_legal_moves, is_check, calc_outcome, validate, make/unmake, SAN / UCI round trips) over M3, RAY, EP, CASTLE, PROMO, REACH(3), MAXMOB in the checked build (std ub_checks + arrayvec capacity assertion armed; an abort is located through crash-case slots) and again in the release build, both against the model; (c) semilegal move count through a safe unbounded sink <= 256 in every explored state, incl. the 1- [2-]step relocation / re-typing neighbourhood of the best known high-mobility positions (max seen 242).",
+    "The universal 256 bound is NOT decidable by bounded enumeration; claimed only for the explored states. ptr::add's ub_check covers address overflow only, hence H2 for lookup bounds.", "exhaustive enumeration under two build configurations with abort interception")
+add('C20', "Complete enumeration of every value of every finite type (index <-> value <-> char <-> string round trips, accessors, named constants), from_char over all 1,112,064 chars, FromStr over all 0-2 byte ASCII strings and all castling strings of <=5 symbols over {K,Q,k,q,-,x}, checked constructors over indices 0..=300 + usize extremes (rejection observed as the documented panic), Coord::add / shift; bitboards against BTreeSet<u8>: unary operations on all sets of <=3 squares and complements, byte-confined sets and constants, binary operations on all pairs of sets of <=2 squares (one side also complemented) and byte-confined pairs, deposit_bits over all masks of <=3 bits and byte-confined masks; constants and geometry against integer geometry.",
+    "64-bit sets are not sampled: the operations are bitwise, so small sets and their complements exercise every bit position in every role.", "exhaustive enumeration of finite types against set / integer models")
 
 hooks_commits = subprocess.run(['git', '-C', '/repo', 'log', '--format=%h %s'], capture_output=True, text=True).stdout.splitlines()
 hook_ids = [l.split()[0] for l in hooks_commits if 'verif hook' in l]
